@@ -46,6 +46,25 @@
 //!   bridge comes back to a full queue; for window / threshold pairs from 1/1 to 8/8 (threshold < window,
 //!   threshold = window), with the local → mux direction idle, ended early or carrying traffic of its own.
 //!
+//! Huge-burst family (C04's share of the bridge, also part of C13's run): the local source has 4–10 MiB readable
+//! at once (every `poll_fill_buf` is `Ready` with a piece of 8 KiB … 1 MiB of one continuing pattern run until
+//! the data is exhausted; then end-of-file / `Pending` with a wake-up and a last piece / `Pending` for good /
+//! `Pending` with a wake-up and a second burst), the local sink accepts everything, the peer (window 1–8) keeps
+//! reading and acknowledging. The `drain` step runs such a case to quiescence: the peer application reads
+//! until nothing more is readable, the local side fires the wake-ups it promised, the bridge task is polled
+//! whenever — and only when — its waker was woken. At quiescence `hang` = the local source has data or
+//! end-of-file ready and holds no waker of the task, the stream has credit, nothing was reset, yet the bridge
+//! is Pending and not woken; `burst-not-delivered` = what the peer application has read is not what the bridge
+//! consumed from the local side (and, after a clean finish, not everything the source had). The scripted
+//! local side takes no part in tokio's cooperative budget, so the coalescing loop runs as far as the code
+//! lets it. These cases are written with `z` tokens throughout (wire, trace, per-poll line) and are judged BY
+//! THE MONITORS ONLY: the model's byte strings are linked lists (one 6 MiB poll takes `drv_bridge` two
+//! minutes). The mini-burst family has the same shape at a small scale (4–40 pieces of 1–4 bytes, `drain`
+//! steps) and is compared with the model.
+//! `--focus C04` is the run C04's check makes: huge-burst, mini-burst, bulk, small enumerated families and
+//! random cases; only the progress monitors (`STALL_KEYS`) are reported, all under the key `bridge-stalled`
+//! (the description names the monitor), no model comparison.
+//!
 //! `--pinned` compares with the model of the pinned code (`Penguin.Bridge.pinned`; used to confirm
 //! on the unrepaired tree that the model mirrors both defects). `--kl/--km/--kd N` override the
 //! enumeration bounds. A bridge that ends blocked on credit because the peer application dropped
@@ -1828,7 +1847,8 @@ fn pattern_pieces(total: usize, k0: u8, mut size: impl FnMut() -> usize) -> Vec<
 
 /// Huge burst: the local source has 4–10 MiB readable at once — every `poll_fill_buf` is `Ready` with a piece
 /// of 8 KiB … 1 MiB until the data is exhausted; then end-of-file, or `Pending` with a wake-up and a last
-/// small piece, or `Pending` for good (the completion phase ends the source). The local sink accepts
+/// small piece, or `Pending` for good (the completion phase ends the source), or `Pending` with a wake-up
+/// and a second burst of 4–5 MiB. The local sink accepts
 /// everything, the peer keeps reading and acknowledging (window 1–8, acknowledgement threshold ≤ window, so
 /// credit is never the limit for long), the run is driven to quiescence by a `drain` step. Variants: the
 /// burst is there at the first poll / arrives at a bridge that has already forwarded a small message and is
@@ -1857,7 +1877,7 @@ fn huge_case(seed: u64, k: usize) -> Case {
         1 => *r2.pick(&SIZES),
         _ => r2.range(8 << 10, 1 << 20) as usize,
     });
-    let (variant, tail) = if k < 3 { (k as u64, 0) } else { (r.below(3), r.below(3)) };
+    let (variant, tail) = if k < 3 { (k as u64, 0) } else { (r.below(3), r.below(4)) };
     let mut lfill = vec![];
     let mut steps = vec![];
     match variant {
@@ -1884,7 +1904,13 @@ fn huge_case(seed: u64, k: usize) -> Case {
             lfill.push(Ans::Pending(true));
             lfill.push(Ans::Ready(pattern(2048, ((usize::from(k0) + total) % 251) as u8)));
         }
-        _ => lfill.push(Ans::Pending(false)),
+        2 => lfill.push(Ans::Pending(false)),
+        _ => {
+            // a second burst once the first has gone out
+            lfill.push(Ans::Pending(true));
+            let n = r.range(4 * MIB as u64, 5 * MIB as u64) as usize;
+            lfill.append(&mut pattern_pieces(n, ((usize::from(k0) + total) % 251) as u8, || 256 << 10));
+        }
     }
     steps.push(Step::Drain);
     let credit = r.range(1, 8) as u32;
@@ -2277,6 +2303,13 @@ impl Focus {
             Focus::C04 => STALL_KEYS.contains(&k).then(|| STALL_KEY.to_string()),
         }
     }
+    /// The order in which a case's failures are looked at (C04 reports one key: the most telling monitor first).
+    fn order(self, mut keys: Vec<&String>) -> Vec<&String> {
+        if self == Focus::C04 {
+            keys.sort_by_key(|k| STALL_KEYS.iter().position(|s| s == k).unwrap_or(STALL_KEYS.len()));
+        }
+        keys
+    }
     fn desc(self, k: &str, d: &str) -> String {
         if self == Focus::C04 { format!("[{k}] {d}") } else { d.to_string() }
     }
@@ -2311,7 +2344,7 @@ fn evaluate(case: &Case, origin: &str, mode: &str, part: &mut Part, drv: &mut Op
     if part.samples.len() < 4 && o.moved && o.polls >= 3 {
         part.samples.push(json!({"case": text, "trace": o.trace.iter().take(30).collect::<Vec<_>>()}));
     }
-    for (key, _) in &o.fails {
+    for key in focus.order(o.fails.iter().map(|f| &f.0).collect()) {
         let Some(rkey) = focus.key(key) else { continue };
         if part.failures.iter().any(|f| f.1 == rkey) {
             continue;
@@ -2364,7 +2397,11 @@ fn replay(path: &str, mode: &str, focus: Focus) -> i32 {
     for l in &o.trace {
         println!("{l}");
     }
-    let fails: Vec<(String, String)> = o.fails.iter().filter_map(|(k, d)| focus.key(k).map(|rk| (rk, focus.desc(k, d)))).collect();
+    let fails: Vec<(String, String)> = focus
+        .order(o.fails.iter().map(|f| &f.0).collect())
+        .into_iter()
+        .filter_map(|k| focus.key(k).map(|rk| (rk, focus.desc(k, &o.fails.iter().find(|f| &f.0 == k).expect("key").1))))
+        .collect();
     for (k, d) in &fails {
         println!("FAILS {k}: {d}");
     }
@@ -2421,9 +2458,9 @@ non-trivial = at least one byte was relayed or the bridge was polled at least tw
     // thread) and their small-scale analogues; not part of C03's run
     let (n_huge, n_mini) = match (args.tier, focus) {
         (_, Focus::C03) => (0, 0),
-        (Tier::Quick, Focus::C13) => (6, 400),
-        (Tier::Quick, Focus::C04) => (8, 400),
-        (Tier::Thorough, _) => (48, 20_000),
+        (Tier::Quick, Focus::C13) => (16, 400),
+        (Tier::Quick, Focus::C04) => (24, 400),
+        (Tier::Thorough, _) => (96, 20_000),
     };
     let n_huge = args.opt("--huge").and_then(|s| s.parse().ok()).unwrap_or(n_huge);
     let (kl, km, kd) = (
@@ -2499,7 +2536,7 @@ every bridge poll, {} window/threshold pairs of the bridge's endpoint, the other
         plan.bulk_in.len()
     ));
     rep.notes.push(format!(
-        "{n_huge} huge-burst cases: 4-10 MiB readable at once on the local side (every poll_fill_buf Ready with a piece of 8 KiB - 1 MiB until the data is exhausted, then end-of-file / Pending with a wake-up and a last piece / Pending for good), the local sink accepts everything, the peer (window 1-8) keeps reading and acknowledging, driven to quiescence (`drain`: the bridge is polled whenever and only when it is woken); MONITORS ONLY, not compared with the model (the model's byte strings are linked lists; these {n_huge} cases are not in the model-compared count); {n_mini} mini-burst cases of the same shape (4-40 pieces of 1-4 bytes, `drain` steps) which are compared with the model when a driver is given"
+        "{n_huge} huge-burst cases: 4-10 MiB readable at once on the local side (every poll_fill_buf Ready with a piece of 8 KiB - 1 MiB until the data is exhausted, then end-of-file / Pending with a wake-up and a last piece / Pending for good / Pending with a wake-up and a second burst of 4-5 MiB), the local sink accepts everything, the peer (window 1-8) keeps reading and acknowledging, driven to quiescence (`drain`: the bridge is polled whenever and only when it is woken); MONITORS ONLY, not compared with the model (the model's byte strings are linked lists; these {n_huge} cases are not in the model-compared count); {n_mini} mini-burst cases of the same shape (4-40 pieces of 1-4 bytes, `drain` steps) which are compared with the model when a driver is given"
     ));
     if focus == Focus::C04 {
         rep.notes.push(format!(
